@@ -10,6 +10,13 @@ from .. import evidence, par, scen, shimlog
 from .c01 import Template, build_synced_array
 from .c06 import oracle as c06_oracle
 
+
+def _unmatched(res):
+    """violations not covered by an open known finding (those must not stop the exploration early)"""
+    from .. import findings
+    return len([v for v in res["violations"] if findings.match("C07", v[0]) is None])
+
+
 RULE = ("scenarios = synced array + pending change set (adds only / adds+deletes+updates), 1..6 parities, 1..4 content copies, "
         "forced autosave on/off, io-cache 1/3/default. A counting run under the shim numbers the state-changing system calls "
         "(write, pwrite, rename, ftruncate, fallocate, fsync, unlink, mkdir, link, symlink, utimens, creating opens) on data, parity "
@@ -256,7 +263,7 @@ def run_sync_scenario(case):
                     img.cleanup()
             # (4) resume
             followup(a, fs, res, label, replay, variant, state_final, rng, killed_events=ev2)
-            if len(res["violations"]) >= 4:
+            if _unmatched(res) >= 4:
                 break
         res["counters"]["points_fired"] = fired
         res["nontrivial"] = fired > 0
@@ -358,7 +365,7 @@ def run_fix_scenario(case):
                 res["violations"].append(("second-fix-result-differs:" + diffs[0][1].split("/")[0], "%s: %s" % (label, evidence.jsonable(diffs[:4])), replay))
             elif a.parity_bytes() != twin_parity and twin_rc == 0:
                 res["violations"].append(("second-fix-parity-differs", label, replay))
-            if len(res["violations"]) >= 4:
+            if _unmatched(res) >= 4:
                 break
         res["counters"]["fix_points_fired"] = fired
         res["nontrivial"] = fired > 0
